@@ -7,7 +7,11 @@ VARIABLES progs, pos
 vars == <<progs, pos>>
 
 StdI == [digit |-> "digit", word |-> "word", any |-> "any"]
-CfgC(lock) == [name |-> "r1", trace |-> FALSE, lock |-> lock, icpt |-> StdI, domain |-> "", recovery |-> Mode = "c07quiet"]
+\* the quiescent router also carries a CORS configuration with an explicit header list (request-time CORS processing must not write)
+CorsQ == [on |-> TRUE, origins |-> <<"https://o1.example">>, allow |-> <<"Content-Type", "X-A">>, expose |-> <<>>, maxage |-> 0, cred |-> FALSE]
+CorsOff == [on |-> FALSE, origins |-> <<>>, allow |-> <<>>, expose |-> <<>>, maxage |-> 0, cred |-> FALSE]
+CfgC(lock) == [name |-> "r1", trace |-> FALSE, lock |-> lock, icpt |-> StdI, domain |-> "", recovery |-> Mode = "c07quiet",
+               cors |-> IF Mode = "c07quiet" THEN CorsQ ELSE CorsOff]
 Op0 == [op |-> "", inst |-> "", pat |-> "", methods |-> <<>>, val |-> "", method |-> "", path |-> "", host |-> "", strict |-> FALSE,
         params |-> <<>>, key |-> "", hdr |-> <<>>, prefix |-> "", domains |-> <<>>, faults |-> <<>>]
 New(n)          == [Op0 EXCEPT !.op = "new", !.inst = n]
@@ -15,6 +19,7 @@ Hd(n, p, ms, h) == [Op0 EXCEPT !.op = "handle", !.inst = n, !.pat = p, !.methods
 Rm(n, p, ms)    == [Op0 EXCEPT !.op = "remove", !.inst = n, !.pat = p, !.methods = ms]
 Cl(n, pre)      == [Op0 EXCEPT !.op = "clean", !.inst = n, !.prefix = pre]
 Sv(n, m, path, wit, wps) == [Op0 EXCEPT !.op = "serve", !.inst = n, !.method = m, !.path = path, !.key = wit, !.hdr = wps]
+SvH(n, m, path, wit, wps, rq) == [Sv(n, m, path, wit, wps) EXCEPT !.params = rq]                 \* with request headers (carried in params)
 SvF(n, m, path, wit, wps, f) == [Sv(n, m, path, wit, wps) EXCEPT !.faults = f]     \* the handler panics; the router's recovery contains it
 Rt(n)           == [Op0 EXCEPT !.op = "routes", !.inst = n]
 Ur(n, st, p, ps) == [Op0 EXCEPT !.op = "url", !.inst = n, !.strict = st, !.pat = p, !.params = ps]
@@ -30,22 +35,28 @@ Setup(n) == <<New(n), Hd(n, "/posts/author", G, "hA"), Hd(n, "/u/{id}/x", G, "hU
 \* writers: registrations that split / re-merge the nodes of untouched routes, removals, Clean; handler ids are made unique by TagW
 WOps(n) == {Hd(n, "/posts/abc", G, ""), Rm(n, "/posts/abc", <<>>), Hd(n, "/posts/author", P, ""), Rm(n, "/posts/author", P), Cl(n, "/posts/ab"),
             Hd(n, "/u/{id}/y", G, ""), Rm(n, "/u/{id}/y", <<>>), Hd(n, "/s/f", G, ""), Rm(n, "/s/f", <<>>), Rm(n, "/s/a", <<>>), Hd(n, "/s/a", G, ""),
-            Hd(n, "/u/{uid}/x", G, ""), Cl(n, "/s/f")}
+            Hd(n, "/u/{uid}/x", G, ""), Cl(n, "/s/f"),
+            \* regexp rules are compiled at registration time (and by non-strict URL building, which takes no lock)
+            Hd(n, "/r/{id:\\d+}", G, ""), Rm(n, "/r/{id:\\d+}", <<>>), Hd(n, "/r/{w:[a-z]+}x", G, "")}
 ROps(n) == {Sv(n, "GET", "/posts/author", "/posts/author", <<>>), Sv(n, "GET", "/posts/abc", "/posts/abc", <<>>), Sv(n, "POST", "/posts/author", "/posts/author", <<>>),
             Sv(n, "OPTIONS", "/posts/author", "/posts/author", <<>>), Sv(n, "GET", "/u/7q/x", "/u/{id}/x", [id |-> "7q"]), Sv(n, "GET", "/u/7q/y", "/u/{id}/y", [id |-> "7q"]),
             Sv(n, "GET", "/s/a", "/s/a", <<>>), Sv(n, "GET", "/s/7q", "/s/{id}", [id |-> "7q"]), Sv(n, "GET", "/s/f", "/s/f", <<>>), Sv(n, "OPTIONS", "*", "", <<>>),
+            Sv(n, "GET", "/r/77", "/r/{id:\\d+}", [id |-> "77"]), Ur(n, FALSE, "/q/{id:\\w+}", [id |-> "5"]), Ur(n, FALSE, "/q/{id:[0-9]+}/z", [id |-> "5"]),
             Rt(n), Ur(n, TRUE, "/posts/author", [a |-> "1"]), Ur(n, TRUE, "/u/{id}/x", [id |-> "5"]), Ur(n, TRUE, "/posts/abc", <<>>)}
 HOpsC(n) == {HAd(n, "a.example.com"), HAd(n, "{sub}.example.com"), HDl(n, "A.example.com"), HDl(n, "{sub}.example.com"),
              HMt(n, "a.example.com", "a.example.com", <<>>), HMt(n, "7q.example.com:80", "{sub}.example.com", [sub |-> "7q"]), HMt(n, "zz.other.com", "", <<>>)}
 
 \* goroutine roles per mode: sequence of [kind, inst]
 Roles == CASE Mode = "c06"      -> <<[k |-> "w", n |-> "r1"], [k |-> "w", n |-> "r1"], [k |-> "r", n |-> "r1"], [k |-> "r", n |-> "r1"]>>
-           [] Mode = "c07inst"  -> <<[k |-> "own", n |-> "r1"], [k |-> "own", n |-> "r2"], [k |-> "hosts", n |-> "h1"]>>
+           [] Mode = "c07inst"  -> <<[k |-> "own", n |-> "r1"], [k |-> "own", n |-> "r2"], [k |-> "hosts", n |-> "h1"], [k |-> "hosts", n |-> "h2"]>>
            [] Mode = "c07quiet" -> <<[k |-> "r", n |-> "r1"], [k |-> "r", n |-> "r1"], [k |-> "r", n |-> "r1"], [k |-> "r", n |-> "r1"]>>
            [] Mode = "c07seq"   -> <<[k |-> "seq", n |-> ""]>>
            [] Mode = "c07group" -> <<[k |-> "grp", n |-> "g1"], [k |-> "grp", n |-> "g1"], [k |-> "grp", n |-> "g1"], [k |-> "r", n |-> "r1"]>>
 QOps(n) == ROps(n) \cup {SvF(n, "GET", "/posts/author", "/posts/author", <<>>, [x \in {"h:route"} |-> "error"]),
-                        SvF(n, "GET", "/nope/zz", "", <<>>, [x \in {"h:404"} |-> "string"])}
+                        SvF(n, "GET", "/nope/zz", "", <<>>, [x \in {"h:404"} |-> "string"]),
+                        SvH(n, "OPTIONS", "/posts/author", "/posts/author", <<>>, [Origin |-> "https://o1.example"] @@ ("Access-Control-Request-Method" :> "GET")
+                                                                                  @@ ("Access-Control-Request-Headers" :> "content-type, x-a")),
+                        SvH(n, "GET", "/s/a", "/s/a", <<>>, [Origin |-> "https://o1.example"])}
 OpsFor(role) == CASE role.k = "w" -> WOps(role.n)
                   [] role.k = "r" -> IF Mode = "c07quiet" THEN QOps(role.n) ELSE ROps(role.n)
                   [] role.k = "own" -> WOps(role.n) \cup ROps(role.n)
